@@ -347,7 +347,15 @@ def run(run):
     # TEMP_COPY marks its copy (shared with C03 LINKSYM)
     tc = vm.handlers['temp_copy']
     marks = [e for e in calls_in(tc, 'graphite2::Slot::markCopied') if tc.strip_all_casts(e['args'][0]).get('v') == 1]
-    if marks:
-        run.held('DETACH', 'TEMP_COPY marks the copy', tc.loc(marks[0]), 'markCopied(true): attach-to-copy is refused by ATTACH')
+    # the whole-slot memcpy overwrites the flags: the mark must be set AFTER the last whole-object write into the copy on every path
+    whole = [e for e in calls_in(tc, 'memcpy') if marks and tc.render(tc.deref(e['args'][0])) == tc.render(tc.deref(marks[0]['obj']))]
+    late = [w for w in whole for m in marks
+            if not (tc.block_of[w['i']] in tc.dominators()[tc.block_of[m['i']]] and
+                    (tc.block_of[w['i']] != tc.block_of[m['i']] or tc.pos_of[w['i']] < tc.pos_of[m['i']]))]
+    if marks and not late:
+        run.held('DETACH', 'TEMP_COPY marks the copy', tc.loc(marks[0]), 'markCopied(true) after the whole-slot copy: attach-to-copy is refused by ATTACH')
+    elif marks:
+        run.violated('DETACH', 'TEMP_COPY marks the copy', tc.loc(late[0]), 'the scratch copy is marked copied BEFORE the whole-slot memcpy overwrites its flags with the '
+                     'original\'s: the copy ends up unmarked, an attachment to it is accepted and garbage collection never frees it')
     else:
         run.violated('DETACH', 'TEMP_COPY marks the copy', tc.where(), 'the scratch copy is not marked copied')
